@@ -358,7 +358,11 @@ class Quantity(GenericQuantity):
         UnitsError
             If `units` are incompatible with the units of this quantity.
         """
-        return '%g %s' % (self.in_units(units), units)
+        text = '%g' % self.in_units(units)
+        if 'e' in text:
+            # the units grammar has no exponent notation
+            text = np.format_float_positional(float(text), trim='-')
+        return '%s %s' % (text, units)
 
 
 class ArrayQuantity(GenericQuantity, np.ndarray):
